@@ -399,6 +399,50 @@ func c18Spaces(tier string) []c18Space {
 			return "script S {\n\tmsgbox(ascii\"" + content + "\")\n\tx(custom\"" + content + "\")\n}\n"
 		}
 	}})
+	// alternating nests: a poryswitch case that holds a block statement whose block holds the next poryswitch, K levels deep
+	// for every K up to 48, around one inline text or moves(); 4 block kinds x brace / colon form x 2 cores. (Work that
+	// doubles per level - data of a case collected once per enclosing construct - stays invisible in nests of one kind.)
+	const altMaxK = 48
+	spaces = append(spaces, c18Space{kind: "alternating-nests", total: altMaxK * 4 * 2 * 2, input: func(idx uint64) string {
+		k := int(idx/16) + 1
+		block, colon, core := int(idx%4), idx/4%2 == 1, idx/8%2
+		var open, closing []string
+		for i := 0; i < k; i++ {
+			var bo, bc string
+			switch block {
+			case 0:
+				bo, bc = fmt.Sprintf("if (flag(F%d)) {", i), "}"
+			case 1:
+				bo, bc = fmt.Sprintf("while (var(V%d) < 2) {", i), "}"
+			case 2:
+				bo, bc = "do {", fmt.Sprintf("} while (flag(D%d))", i)
+			default:
+				bo, bc = fmt.Sprintf("switch (var(S%d)) { case 1:", i), "}"
+			}
+			if colon {
+				open = append(open, "poryswitch(V) { X: other _: "+bo)
+				closing = append(closing, bc+" }")
+			} else {
+				open = append(open, "poryswitch(V) { X { other } _ { "+bo)
+				closing = append(closing, bc+" } }")
+			}
+		}
+		inner := "msgbox(\"hi\")"
+		if core == 1 {
+			inner = "applymovement(1, moves(u d))"
+		}
+		var sb strings.Builder
+		sb.WriteString("script S {\n")
+		for _, o := range open {
+			sb.WriteString(o + "\n")
+		}
+		sb.WriteString(inner + "\n")
+		for i := len(closing) - 1; i >= 0; i-- {
+			sb.WriteString(closing[i] + "\n")
+		}
+		sb.WriteString("}\n")
+		return sb.String()
+	}})
 	// long tokens where another token is expected (error paths quote the unexpected token): a string, an identifier, a raw
 	// string or a number of N characters for every N up to 400, filled with 1-, 2-, 3- and 4-byte characters, in 8 places
 	// where the grammar wants something else
@@ -785,5 +829,5 @@ func runC18(tier string) int {
 		"configurations are a covering set, not the full matrix: every option value appears in at least one configuration",
 		"an error must be a parser.ParseError with 1 <= start line <= end line <= number of lines (counting the empty line after a final newline)")
 	return r.Finish(r.Get("evaluations"), r.Get("nontrivial"),
-		"(a) every sequence of <= L tokens from a 57-lexeme alphabet after each of 29 context prefixes, with 3 suffixes; (b) every single deviation (truncation, deletion, replacement or insertion by every alphabet token) of 12 seed programs that use every production (thorough: pairs of deviations on the small seeds); (c) every sequence of <= S well-formed statement templates (29 templates, shared with C01); (d) every sequence of <= D constant definitions over three names whose values mention each other, followed by a program using them at every use site; (e) every integer from 0 to 70000 (thorough 2^20) and 20 values around 2^31, 2^32, 2^63, 2^64 and powers of ten, decimal and hex, at every position that interprets a number; (e') every scaled program (templates repeated K times, blocks nested K deep, switches with K cases); (h) a string / identifier / raw string / number token of every length up to 400 characters of 1 to 4 bytes each in 8 places where the grammar expects another token; (g) text literals of every length up to 2100 bytes (and 11 lengths up to 70000) x 8 start/end shapes (unclosed / closed brace code, trailing backslash, multi-byte end, spaces only) x 4 origins; (f) every string of <= N characters over 23 characters incl. multi-byte letters, a 3-byte non-letter, U+FFFD, NUL, quote, backtick, CR, bare and inside 'script S { x('; each input under a covering set of configurations (optimize, line markers/path, switches, font file/default font, command configs incl. argument positions -1 and 3 and one whose keys are the identifier-like literals of the compiler's source and its keywords, normal and lint); evaluations = input x configuration runs; non-trivial = the input is rejected (an error path is taken)")
+		"(a) every sequence of <= L tokens from a 57-lexeme alphabet after each of 29 context prefixes, with 3 suffixes; (b) every single deviation (truncation, deletion, replacement or insertion by every alphabet token) of 12 seed programs that use every production (thorough: pairs of deviations on the small seeds); (c) every sequence of <= S well-formed statement templates (29 templates, shared with C01); (d) every sequence of <= D constant definitions over three names whose values mention each other, followed by a program using them at every use site; (e) every integer from 0 to 70000 (thorough 2^20) and 20 values around 2^31, 2^32, 2^63, 2^64 and powers of ten, decimal and hex, at every position that interprets a number; (e') every scaled program (templates repeated K times, blocks nested K deep, switches with K cases); (i) poryswitch cases and block statements nested alternately K deep for every K <= 48 (4 block kinds, brace and colon cases, an inline text or moves() at the core); (h) a string / identifier / raw string / number token of every length up to 400 characters of 1 to 4 bytes each in 8 places where the grammar expects another token; (g) text literals of every length up to 2100 bytes (and 11 lengths up to 70000) x 8 start/end shapes (unclosed / closed brace code, trailing backslash, multi-byte end, spaces only) x 4 origins; (f) every string of <= N characters over 23 characters incl. multi-byte letters, a 3-byte non-letter, U+FFFD, NUL, quote, backtick, CR, bare and inside 'script S { x('; each input under a covering set of configurations (optimize, line markers/path, switches, font file/default font, command configs incl. argument positions -1 and 3 and one whose keys are the identifier-like literals of the compiler's source and its keywords, normal and lint); evaluations = input x configuration runs; non-trivial = the input is rejected (an error path is taken)")
 }
